@@ -150,13 +150,14 @@ theorem Pairs.congr_left {α β : Type} {R S : α → β → Prop} :
   | _, _, h, .cons h1 h2 => .cons (h _ (by simp) _ h1) (Pairs.congr_left (fun a ha b hab => h a (by simp [ha]) b hab) h2)
 
 /-- the text of an outcome and `outcome_rejudged`, about the SAME list of written lines: the text of an
-outcome is the command, the lines `newOrigs`, `[code]`; and (test compiled from its texts, no
+outcome is the command, then the lines `newOrigs` and `[code]` placed as for a passing test (`withExitCode true`:
+`[code]` in front iff the first line starts with `> ` -- a generated first line never does); and (test compiled from its texts, no
 quantified expectation if the result is `MalformedOutput`) the test with these lines as expectations
 passes on the same run -/
 theorem outcome_full {isOther : Char → Bool} (hC : AsciiContract isOther) {u : UTest} {r : Ran}
     {res : Gen.UpdResult} {g : List Char} (h : outcomeText isOther u r = .ok (res, some g)) :
     ∃ (ex : List Char) (newOrigs : List (List Char)), Gen.expression u.cmd = some ex ∧
-      g = ex ++ newOrigs.flatMap Gen.assureNewlineC ++ Gen.exitCodeOpt r.code ∧
+      g = ex ++ Gen.withExitCode true (newOrigs.flatMap Gen.assureNewlineC) r.code ∧
       (∀ o ∈ newOrigs, o ∈ u.origs ∨ ∃ l, Newline.IsLine l ∧ Gen.expectationLine .unicode isOther l = some o) ∧
       (u.Compiled → ((∃ d, res = .malformed d) → Unquantified u) →
         ∃ newExps, Pairs (fun o e => compile o = .ok e) newOrigs newExps ∧
@@ -167,7 +168,8 @@ theorem outcome_full {isOther : Char → Bool} (hC : AsciiContract isOther) {u :
   generalize hls : Newline.splitAtNewline (validateStream u.test.cfg recorded) = lines at *
   have core : ∀ (sl : List Slot) (body : List Char)
       (hbody : slotsText .unicode isOther u.origs lines sl = some body)
-      (ex : List Char) (hex : Gen.expression u.cmd = some ex) (hg : g = ex ++ body ++ Gen.exitCodeOpt r.code)
+      (ex : List Char) (hex : Gen.expression u.cmd = some ex)
+      (hg : g = ex ++ Gen.withExitCode (headKept sl) body r.code)
       (hpass : u.Compiled → ((∃ d, res = .malformed d) → Unquantified u) →
         ∃ (origs : List (List Char)) (exps : List CExp) (tbl : List (List Bool)),
           Pairs (fun o e => compile o = .ok e) origs exps ∧
@@ -175,12 +177,14 @@ theorem outcome_full {isOther : Char → Bool} (hC : AsciiContract isOther) {u :
           SlotsSpec (cell tbl) lines.length sl ∧
           ∀ s ∈ sl, slotOrig isOther origs lines s = slotOrig isOther u.origs lines s),
       ∃ (ex : List Char) (newOrigs : List (List Char)), Gen.expression u.cmd = some ex ∧
-        g = ex ++ newOrigs.flatMap Gen.assureNewlineC ++ Gen.exitCodeOpt r.code ∧
+        g = ex ++ Gen.withExitCode true (newOrigs.flatMap Gen.assureNewlineC) r.code ∧
         (∀ o ∈ newOrigs, o ∈ u.origs ∨ ∃ l, Newline.IsLine l ∧ Gen.expectationLine .unicode isOther l = some o) ∧
         (u.Compiled → ((∃ d, res = .malformed d) → Unquantified u) →
           ∃ newExps, Pairs (fun o e => compile o = .ok e) newOrigs newExps ∧
             Passes ⟨⟨u.test.cfg, newExps, writtenExpected r.code⟩, u.cmd, newOrigs⟩ r) := by
     intro sl body hbody ex hex hg hpass
+    rw [withExitCode_headKept_true grammarParams_std .unicode isOther (fun _ => hC) u.origs lines
+      (by rw [← hls]; exact Newline.splitAtNewline_isLine _) sl body r.code hbody] at hg
     obtain ⟨no, hno⟩ := slotsText_some_pairs isOther _ _ sl body hbody
     have hb := slotsText_of_pairs hC u.origs _ sl no hno
     rw [hbody] at hb
@@ -262,7 +266,9 @@ theorem outcome_full {isOther : Char → Bool} (hC : AsciiContract isOther) {u :
     | none => simp [he] at hgen
     | some e =>
       simp only [he, Option.map_some, Option.some.injEq] at hgen
-      refine core ((Diff.rangeFrom 0 lines.length).map .gen) e ?_ ex hex hgen.symm ?_
+      have hgen' : g = ex ++ Gen.withExitCode (headKept ((Diff.rangeFrom 0 lines.length).map .gen)) e r.code := by
+        rw [headKept_gen, withExitCode_false, ← List.append_assoc]; exact hgen.symm
+      refine core ((Diff.rangeFrom 0 lines.length).map .gen) e ?_ ex hex hgen' ?_
       · rw [slotsText_gen, linesAt_all]
         exact he
       · intro _ _
@@ -277,7 +283,7 @@ theorem outcome_full {isOther : Char → Bool} (hC : AsciiContract isOther) {u :
   | malformed d =>
     simp only at hgen
     have hlines : genLines u.test.cfg recorded (.malformed d) = lines := hls
-    rw [hlines, diffBody_eq_slots] at hgen
+    rw [hlines, diffBody_eq_slots, firstKept_slots] at hgen
     cases hb : slotsText .unicode isOther u.origs lines (slots d) with
     | none => simp [hb] at hgen
     | some body =>
@@ -303,16 +309,6 @@ theorem outcome_full {isOther : Char → Bool} (hC : AsciiContract isOther) {u :
             · cases hj
 
 /-! ## one block of the written document, read by the line parser -/
-
-/-- guard (finding `C10:trailing-empty-continuation-dropped`): the last line of the command is not
-empty (`$ a` / `> ` is the command `a⏎`, which `update` writes as `$ a`) -/
-def CmdClosed (t : TestCase Cfg) : Prop := t.command.getLast? ≠ some []
-
-/-- guard (finding `C10:expectation-read-as-continuation`): no expectation line starts with `> ` -/
-def NoContLike (t : TestCase Cfg) : Prop := ∀ o ∈ t.expectations, stripPrefix ['>', ' '] o = none
-
-instance (t : TestCase Cfg) : Decidable (CmdClosed t) := by unfold CmdClosed; exact inferInstance
-instance (t : TestCase Cfg) : Decidable (NoContLike t) := by unfold NoContLike; exact inferInstance
 
 theorem joinNl_eq : ∀ (ls : List (List Char)), LineParser.joinNl ls = Gen.joinNl ls
   | [] => rfl
@@ -345,27 +341,104 @@ theorem exitLines_notCont (code : Int) : NotCont (exitLines code) := by
   · simp [NotCont, stripPrefix]
   · trivial
 
+/-- the line `[code]` -/
+def exitLine (code : Int) : Markdown.Line := ['['] ++ Gen.showInt code ++ [']']
+
+/-- the lines `generate_testcase` writes behind the command lines for the expectation texts `newOrigs` and the
+exit code (fix cfef990): `[code]` first if the first text starts with `> `, else last and only if not 0 -/
+def afterLines (newOrigs : List Markdown.Line) (code : Int) : List Markdown.Line :=
+  if contHead newOrigs then exitLine code :: newOrigs else newOrigs ++ exitLines code
+
+theorem exitLine_clean (code : Int) : Update.Clean (exitLine code) := by
+  unfold exitLine
+  refine ⟨?_, ?_⟩
+  rotate_left
+  · have : (['['] ++ Gen.showInt code ++ [']']).getLast? = some ']' := by
+      rw [List.getLast?_append]; rfl
+    rw [this]; decide
+  have hd : ∀ n, '\n' ∉ Nat.toDigits 10 n := digits_clean
+  unfold Gen.showInt
+  split
+  · simp [hd]
+  · simp [hd]
+
+theorem stripPrefix_none_of_take2 (o : Markdown.Line) (h : (o.take 2 == ['>', ' ']) = false) :
+    stripPrefix ['>', ' '] o = none := by
+  match o, h with
+  | [], _ => rfl
+  | [c], _ => by_cases hc : '>' = c <;> simp [stripPrefix, hc]
+  | a :: b :: r, h =>
+    have h' : ¬ (a = '>' ∧ b = ' ') := by simpa using h
+    by_cases ha : '>' = a
+    · by_cases hb : ' ' = b
+      · exact absurd ⟨ha.symm, hb.symm⟩ h'
+      · simp [stripPrefix, hb]
+    · simp [stripPrefix, ha]
+
+/-- **the line directly behind the command lines never continues the command** (this is what the fix is for) -/
+theorem afterLines_notCont (newOrigs : List Markdown.Line) (code : Int) : NotCont (afterLines newOrigs code) := by
+  unfold afterLines
+  cases hc : contHead newOrigs with
+  | true => simp [NotCont, exitLine, stripPrefix]
+  | false =>
+    cases newOrigs with
+    | nil => simpa using exitLines_notCont code
+    | cons o rest =>
+      have : (o.take 2 == ['>', ' ']) = false := hc
+      simpa [NotCont] using stripPrefix_none_of_take2 o this
+
+theorem afterLines_clean (newOrigs : List Markdown.Line) (code : Int) (h : ∀ o ∈ newOrigs, Update.Clean o) :
+    ∀ l ∈ afterLines newOrigs code, Update.Clean l := by
+  intro l hl
+  unfold afterLines at hl
+  split at hl
+  · rcases List.mem_cons.mp hl with rfl | hl
+    · exact exitLine_clean code
+    · exact h l hl
+  · rcases List.mem_append.mp hl with hl | hl
+    · exact h l hl
+    · exact exitLines_clean code l hl
+
+/-- the text behind the command lines is the text of `afterLines` -/
+theorem withExitCode_unlines (newOrigs : List Markdown.Line) (code : Int) (h : ∀ o ∈ newOrigs, '\n' ∉ o) :
+    Gen.withExitCode true (newOrigs.flatMap Gen.assureNewlineC) code = Update.unlines (afterLines newOrigs code) := by
+  have hflat : ∀ (l : List (List Char)), (∀ o ∈ l, '\n' ∉ o) → l.flatMap Gen.assureNewlineC = Update.unlines l := by
+    intro l
+    induction l with
+    | nil => intro _; rfl
+    | cons o r ih =>
+      intro h
+      rw [List.flatMap_cons, Update.unlines_cons, assureNewlineC_plain o (h o (by simp)), ih (fun x hx => h x (by simp [hx]))]
+      simp
+  rw [withExitCode_contHead, hflat newOrigs h]
+  unfold afterLines
+  split
+  · simp [Update.unlines, Gen.exitCodeLine, exitLine]
+  · rw [exitCodeOpt_unlines, Update.unlines_append]
+
 theorem mem_expLines {after : List Markdown.Line} {o : Markdown.Line} (h : o ∈ expLines after) : o ∈ after :=
   (List.mem_filter.mp h).1
 
 /-- **one block read again**: the original block reads as test `t` (prepared as `u`), `g` is the text
-of its outcome, and the lines of `g` read as test `t'`.  Then `t'` has the command of `t`; its
-expectations and exit code are those of the lines `newOrigs ++ [code]` written behind the command. -/
+of its outcome, and the lines of `g` read as test `t'`.  Then `t'` has the command of `t` -- whatever the
+command (also one that ends in an empty continuation line) and whatever the expectation lines (also one that
+starts with `> `) --; its expectations and exit code are those of the lines `afterLines newOrigs code` written
+behind the command. -/
 theorem reparse_block {isOther : Char → Bool} (hC : AsciiContract isOther) {expOk : Markdown.Line → Bool}
     {cfg cfg' : Numbered} {code : List Markdown.Line} {t t' : TestCase Cfg} {u : UTest} {r : Ran}
     {res : Gen.UpdResult} {g : List Char}
     (hb : BlockOf expOk cfg code t) (hclean : ∀ l ∈ code, Update.Clean l)
-    (hcmd : CmdClosed t) (hnc : NoContLike t) (hu : prepareU t = .ok u)
+    (hu : prepareU t = .ok u)
     (ho : outcomeText isOther u r = .ok (res, some g))
     (hb' : BlockOf expOk cfg' (splitLines g) t') :
     ∃ (ex : List Char) (newOrigs : List (List Char)),
       Gen.expression u.cmd = some ex ∧
-      g = ex ++ newOrigs.flatMap Gen.assureNewlineC ++ Gen.exitCodeOpt r.code ∧
+      g = ex ++ Gen.withExitCode true (newOrigs.flatMap Gen.assureNewlineC) r.code ∧
       (u.Compiled → ((∃ d, res = .malformed d) → Unquantified u) →
         ∃ newExps, Pairs (fun o e => compile o = .ok e) newOrigs newExps ∧
           Passes ⟨⟨u.test.cfg, newExps, writtenExpected r.code⟩, u.cmd, newOrigs⟩ r) ∧
-      t'.command = t.command ∧ t'.expectations = expLines (newOrigs ++ exitLines r.code) ∧
-      t'.exitCode = (exitCodes (newOrigs ++ exitLines r.code)).head? ∧ t'.config = some (cfgOf cfg') ∧
+      t'.command = t.command ∧ t'.expectations = expLines (afterLines newOrigs r.code) ∧
+      t'.exitCode = (exitCodes (afterLines newOrigs r.code)).head? ∧ t'.config = some (cfgOf cfg') ∧
       (∀ o ∈ newOrigs, extractExitCode o = none) := by
   obtain ⟨c0, more, after, hcode, _, h1, h2, _, _, _, _⟩ := hb
   obtain ⟨_, hucmd, huorigs, _⟩ := prepareU_compiled hu
@@ -389,60 +462,38 @@ theorem reparse_block {isOther : Char → Bool} (hC : AsciiContract isOther) {ex
     | nil => simp at h
     | cons a b => simpa [contLine] using h
   have hafter : ∀ x ∈ after, Update.Clean x := fun x hx => hclean x (by rw [hcode]; simp [hx])
-  have hlines : CmdLines (c0 :: more) := by
-    refine ⟨?_, ?_⟩
-    · intro l hl
-      rcases List.mem_cons.mp hl with rfl | hl
-      · exact hc0.1
-      · exact (hmore l hl).1
-    · have hne : c0 :: more ≠ [] := by simp
-      refine ⟨(c0 :: more).dropLast, (c0 :: more).getLast hne, (List.dropLast_concat_getLast hne).symm, ?_⟩
-      intro h
-      apply hcmd
-      rw [h1, List.getLast?_eq_some_getLast hne, h]
+  have hlines : ∀ l ∈ c0 :: more, '\n' ∉ l := by
+    intro l hl
+    rcases List.mem_cons.mp hl with rfl | hl
+    · exact hc0.1
+    · exact (hmore l hl).1
   have hexl := expression_lines c0 more hlines
   rw [← joinNl_eq, ← h1, show LineParser.joinNl t.command = t.shellExpression from rfl, ← hucmd, hex] at hexl
   have hex' : ex = Update.unlines (('$' :: ' ' :: c0) :: more.map contLine) := Option.some.inj hexl
   -- the expectation lines written
-  have horig : ∀ o ∈ newOrigs, Update.Clean o ∧ stripPrefix ['>', ' '] o = none := by
+  have horig : ∀ o ∈ newOrigs, Update.Clean o := by
     intro o ho'
     rcases hno o ho' with hin | ⟨l, hl, hgen⟩
     · rw [huorigs] at hin
-      refine ⟨hafter o (mem_expLines (by rw [← h2]; exact hin)), hnc o hin⟩
+      exact hafter o (mem_expLines (by rw [← h2]; exact hin))
     · obtain ⟨t0, ht0, hok⟩ := line_ok grammarParams_std .unicode isOther (fun _ => hC) hl
       rw [hgen] at ht0
       cases ht0
-      exact ⟨⟨hok.no_nl, hok.no_cr⟩, (commandLead_none_strip hok.no_lead).2⟩
-  have hflat : newOrigs.flatMap Gen.assureNewlineC = Update.unlines newOrigs := by
-    have : ∀ (l : List (List Char)), (∀ o ∈ l, '\n' ∉ o) → l.flatMap Gen.assureNewlineC = Update.unlines l := by
-      intro l
-      induction l with
-      | nil => intro _; rfl
-      | cons o r ih =>
-        intro h
-        rw [List.flatMap_cons, Update.unlines_cons, assureNewlineC_plain o (h o (by simp)), ih (fun x hx => h x (by simp [hx]))]
-        simp
-    exact this newOrigs (fun o ho' => (horig o ho').1.1)
-  have hgl : g = Update.unlines ((('$' :: ' ' :: c0) :: more.map contLine) ++ newOrigs ++ exitLines r.code) := by
-    rw [hg, hex', hflat, exitCodeOpt_unlines, Update.unlines_append, Update.unlines_append]
-  have hsplit : splitLines g = (('$' :: ' ' :: c0) :: more.map contLine) ++ newOrigs ++ exitLines r.code := by
+      exact ⟨hok.no_nl, hok.no_cr⟩
+  have hgl : g = Update.unlines ((('$' :: ' ' :: c0) :: more.map contLine) ++ afterLines newOrigs r.code) := by
+    rw [hg, hex', withExitCode_unlines newOrigs r.code (fun o ho' => (horig o ho').1), Update.unlines_append]
+  have hsplit : splitLines g = (('$' :: ' ' :: c0) :: more.map contLine) ++ afterLines newOrigs r.code := by
     rw [hgl]
     apply Update.splitLines_unlines
     intro l hl
     simp only [List.cons_append, List.mem_cons, List.mem_append, List.mem_map] at hl
-    rcases hl with rfl | (⟨x, hx, rfl⟩ | hl) | hl
+    rcases hl with rfl | ⟨x, hx, rfl⟩ | hl
     · exact hclean _ (by rw [hcode]; simp)
     · exact hclean _ (by rw [hcode]; exact List.mem_cons_of_mem _ (List.mem_append_left _ (List.mem_map_of_mem hx)))
-    · exact (horig l hl).1
-    · exact exitLines_clean r.code l hl
-  have hnot : NotCont (newOrigs ++ exitLines r.code) := by
-    cases hn : newOrigs with
-    | nil => simpa using exitLines_notCont r.code
-    | cons o rest =>
-      have := (horig o (by rw [hn]; simp)).2
-      simpa [NotCont] using this
+    · exact afterLines_clean newOrigs r.code horig l hl
+  have hnot : NotCont (afterLines newOrigs r.code) := afterLines_notCont newOrigs r.code
   rw [hsplit] at hb'
-  have hb'' : BlockOf expOk cfg' (('$' :: ' ' :: c0) :: (more.map contLine ++ (newOrigs ++ exitLines r.code))) t' := by
+  have hb'' : BlockOf expOk cfg' (('$' :: ' ' :: c0) :: (more.map contLine ++ afterLines newOrigs r.code)) t' := by
     simpa [List.append_assoc] using hb'
   obtain ⟨g1, g2, g3, g4⟩ := blockOf_unique hnot hb''
   refine ⟨ex, newOrigs, hex, hg, hpass, by rw [g1, h1], g2, g3, g4, ?_⟩
@@ -539,8 +590,7 @@ theorem run_same_commands_parsed {isOther : Char → Bool} (hC : AsciiContract i
     {runs : List Ran} {text : List Char} {results : List Gen.UpdResult}
     (h : updateDocument isOther content runs = .updated text results)
     (hcr : NoStrayCR content) (hf : FrontClosed content)
-    {p p' : Parsed} (hp : parseMarkdown parseEnv content = .ok p) (hp' : parseMarkdown parseEnv text = .ok p')
-    (hcmd : ∀ t ∈ p.tests, CmdClosed t) (hnc : ∀ t ∈ p.tests, NoContLike t) :
+    {p p' : Parsed} (hp : parseMarkdown parseEnv content = .ok p) (hp' : parseMarkdown parseEnv text = .ok p') :
     p'.tests.map (·.command) = p.tests.map (·.command) := by
   obtain ⟨hlen, _, hall⟩ := run_aligned h hcr hf hp hp'
   apply List.ext_getElem?
@@ -554,8 +604,7 @@ theorem run_same_commands_parsed {isOther : Char → Bool} (hC : AsciiContract i
     rw [this]
   | some t' =>
     obtain ⟨t, u, r, res, g, b, b', ha⟩ := hall j t' ht'
-    have hmem : t ∈ p.tests := List.mem_of_getElem? ha.test
-    obtain ⟨_, _, _, _, _, hc, _⟩ := reparse_block hC ha.block ha.clean (hcmd t hmem) (hnc t hmem) ha.prepared ha.outcome ha.block'
+    obtain ⟨_, _, _, _, _, hc, _⟩ := reparse_block hC ha.block ha.clean ha.prepared ha.outcome ha.block'
     rw [ha.test]
     simp [hc]
 
@@ -586,6 +635,43 @@ theorem exitCodes_written (ts : List Markdown.Line) (hts : ∀ t ∈ ts, extract
   · simp [exitLine_exit code h0 h1]
   · simp
 
+theorem exitLine_exit' (code : Int) (h0 : 0 ≤ code) (h1 : code ≤ 255) :
+    extractExitCode (exitLine code) = some code.toNat := by
+  have := exitLine_exit code h0 h1
+  simpa [exitLine] using this
+
+/-- the expectation lines read back from the lines behind the command are the texts written -/
+theorem expLines_afterLines (ts : List Markdown.Line) (hts : ∀ t ∈ ts, extractExitCode t = none) (code : Int)
+    (h0 : 0 ≤ code) (h1 : code ≤ 255) : expLines (afterLines ts code) = ts := by
+  unfold afterLines
+  split
+  · rw [expLines_cons_some _ (exitLine_exit' code h0 h1)]
+    have := expLines_written ts hts 0 (by decide) (by decide)
+    simpa [exitLines] using this
+  · exact expLines_written ts hts code h0 h1
+
+/-- the exit code read back: `[code]` in front is read also for 0 -/
+theorem exitCodes_afterLines (ts : List Markdown.Line) (hts : ∀ t ∈ ts, extractExitCode t = none) (code : Int)
+    (h0 : 0 ≤ code) (h1 : code ≤ 255) :
+    exitCodes (afterLines ts code) = if contHead ts ∨ code ≠ 0 then [code.toNat] else [] := by
+  unfold afterLines
+  cases hc : contHead ts with
+  | true =>
+    simp only [if_true, true_or]
+    rw [exitCodes_cons_some _ (exitLine_exit' code h0 h1)]
+    have := exitCodes_written ts hts 0 (by decide) (by decide)
+    simp only [exitLines, ne_eq, not_true_eq_false, if_false, List.append_nil] at this
+    rw [this]
+  | false =>
+    simp only [Bool.false_eq_true, if_false, false_or]
+    exact exitCodes_written ts hts code h0 h1
+
+/-- the exit-code gate and the verdict read the expected exit code through `unwrap_or(0)` only -/
+theorem judge_expected_congr (c : Yaml.Cfg) (x : List CExp) (e e' : Option Int) (h : e.getD 0 = e'.getD 0)
+    (recorded : Bytes × Bytes) (code : Int) :
+    judge ⟨c, x, e⟩ recorded code = judge ⟨c, x, e'⟩ recorded code := by
+  simp only [judge, Gen.updResult, h]
+
 /-- guard of U4 (`C10:not-idempotent-retained-quantified-expectations`): a test whose result is
 `MalformedOutput` -- the one case in which expectations are retained next to new ones -- has no
 quantified expectation -/
@@ -605,7 +691,6 @@ theorem run_idempotent_readback {isOther : Char → Bool} (hC : AsciiContract is
     (h : updateDocument isOther content runs = .updated text results)
     (hcr : NoStrayCR content) (hf : FrontClosed content)
     {p : Parsed} (hp : parseMarkdown parseEnv content = .ok p)
-    (hcmd : ∀ t ∈ p.tests, CmdClosed t) (hnc : ∀ t ∈ p.tests, NoContLike t)
     (hcodes : ∀ r ∈ runs, 0 ≤ r.code ∧ r.code ≤ 255)
     (hq : QuantFree content results) (hsc : SameConfigs content text) :
     ∃ rs, updateDocument isOther text runs = .unchanged rs := by
@@ -628,12 +713,11 @@ theorem run_idempotent_readback {isOther : Char → Bool} (hC : AsciiContract is
     intro j u' hu'
     obtain ⟨t', ht'j, hprep'j⟩ := hprep'.get' j u' hu'
     obtain ⟨t, u, r, res, g, b, b', ha⟩ := hall j t' ht'j
-    have hmem : t ∈ p.tests := List.mem_of_getElem? ha.test
     obtain ⟨ex, newOrigs, hex, hg, hpass, c1, c2, c3, _, c5⟩ :=
-      reparse_block hC ha.block ha.clean (hcmd t hmem) (hnc t hmem) ha.prepared ha.outcome ha.block'
+      reparse_block hC ha.block ha.clean ha.prepared ha.outcome ha.block'
     obtain ⟨hcode0, hcode1⟩ := hcodes r (List.mem_of_getElem? ha.run)
-    rw [expLines_written newOrigs c5 r.code hcode0 hcode1] at c2
-    rw [exitCodes_written newOrigs c5 r.code hcode0 hcode1] at c3
+    rw [expLines_afterLines newOrigs c5 r.code hcode0 hcode1] at c2
+    rw [exitCodes_afterLines newOrigs c5 r.code hcode0 hcode1] at c3
     -- the original test
     obtain ⟨uu, huu, hpu⟩ := hprep.get j t ha.test
     rw [ha.prepared] at hpu
@@ -650,14 +734,17 @@ theorem run_idempotent_readback {isOther : Char → Bool} (hC : AsciiContract is
       show LineParser.joinNl t'.command = LineParser.joinNl t.command
       rw [c1]
     have e2 : u'.origs = newOrigs := by rw [horigs', c2]
-    have e3 : u'.test.expected = writtenExpected r.code := by
+    -- the exit code read back is the one of the run (`[0]` in front is read as 0, no line as none)
+    have e3 : u'.test.expected.getD 0 = r.code := by
       rw [hexp', c3]
-      unfold writtenExpected
       split
-      · simp only [List.head?_cons, Option.map_some]
-        congr 1
+      · simp only [List.head?_cons, Option.map_some, Option.getD_some]
         exact Int.toNat_of_nonneg hcode0
-      · rfl
+      · rename_i hn
+        have : r.code = 0 := by
+          have := (not_or.mp hn).2
+          exact Decidable.of_not_not this
+        simp [this]
     have e4 : u'.test.cfg = u.test.cfg := by
       have h1 : (tests'.map (·.test.cfg))[j]? = some u'.test.cfg := by rw [List.getElem?_map, hu']; rfl
       have h2 : (tests.map (·.test.cfg))[j]? = some u.test.cfg := by rw [List.getElem?_map, huu]; rfl
@@ -667,12 +754,18 @@ theorem run_idempotent_readback {isOther : Char → Bool} (hC : AsciiContract is
       unfold UTest.Compiled at hcomp'
       rw [e2] at hcomp'
       exact Pairs.functional (fun a b b' h1 h2 => by rw [h1] at h2; cases h2; rfl) hcomp' hne
-    have hu'eq : u' = ⟨⟨u.test.cfg, newExps, writtenExpected r.code⟩, u.cmd, newOrigs⟩ := by
+    have hu'eq : u' = ⟨⟨u.test.cfg, newExps, u'.test.expected⟩, u.cmd, newOrigs⟩ := by
       obtain ⟨⟨c, e, x⟩, cm, og⟩ := u'
-      simp only at e1 e2 e3 e4 e5
-      subst e1 e2 e3 e4 e5
+      simp only at e1 e2 e4 e5
+      subst e1 e2 e4 e5
       rfl
-    refine ⟨r, g, ha.run, ?_, by rw [hu'eq]; exact hps, ?_⟩
+    have hps' : Passes u' r := by
+      obtain ⟨recorded, hrec, hjd⟩ := hps
+      rw [hu'eq]
+      refine ⟨recorded, hrec, ?_⟩
+      rw [← hjd]
+      exact judge_expected_congr _ _ _ _ (by rw [e3, writtenExpected_getD]) _ _
+    refine ⟨r, g, ha.run, ?_, hps', ?_⟩
     · have hjlt : j < os.length := by
         rw [hol]; exact (List.getElem?_eq_some_iff.mp huu).1
       obtain ⟨u2, r2, hu2, hr2, hot⟩ := judgeAll_get isOther tests runs os hj j os[j] (List.getElem?_eq_getElem hjlt)
@@ -684,7 +777,7 @@ theorem run_idempotent_readback {isOther : Char → Bool} (hC : AsciiContract is
       have hoj : os[j] = (res, some g) := (Except.ok.inj hot).symm
       rw [List.getElem?_map, List.getElem?_eq_getElem hjlt, Option.map_some, hoj]
     · rw [hu'eq]
-      simp only [passText, Gen.generateTestcaseUpd, hex, writtenExpected_getD, hg]
+      simp only [passText, Gen.generateTestcaseUpd, hex, e3, hg]
   -- so the second run generates the same texts
   apply run_idempotent_of_same_texts h hcr hf
   rw [hgens]
